@@ -4,7 +4,7 @@ Spellings == {"0xff", "0xFF", "0XfF", "0b101", "0o17", "+5", "-0", "+0", "007", 
               "123456789012345678901234", "9223372036854775807", "9223372036854775808", "-9223372036854775809", "0x7fffffffffffffff",
               "0xffffffffffffffff", "1e400", "5.0000000000000000001", "0.1000", "1_000", "Inf", "-inf", "NaN", "true", "false", " 7", "7 ", "7 8",
               "abc", "", "1e", "0x", "--5", "3.0", "3.00", "1e-400", "00", "0.0", "-0.0", "1e0", "100000000000000000000.5", "0b", "é", "a\"b", "a b"}
-Emit == PrintT(ToJson([spellings |-> SetToSeq(Spellings), ops |-> SetToSeq(Catalogue)]))
+Emit == PrintT(ToJson([spellings |-> SetToSeq(Spellings), ops |-> SetToSeq(Catalogue), copyops |-> SetToSeq(CopyThenChange)]))
 VARIABLE x
 GInit == x = 0 /\ v = [orig |-> "", text |-> "", typed |-> FALSE, assigned |-> FALSE] /\ emitted = "-"
 GNext == UNCHANGED <<x, v, emitted>>
